@@ -147,6 +147,11 @@ def run(rep, tier, seed, summary):
     if ok:
         vlib.print_assumptions(rep, "C10")
     bad = corr_converter.run(rep, tier, seed)
+    # the regenerated converter.py (the subject of the C10_py_* theorems) against the real functions
+    from corr import pyfuncs
+    rep.extra["pyconv_unknown"] = (summary.get("pyconv") or {}).get("unknown")
+    pybad = pyfuncs.run_conv(rep, tier, seed, summary)
+    bad = list(bad) + [dict(case=dict(op="pyconv", detail=b)) for b in pybad]
     # the laws themselves, on the implementation, on every run (also when every obligation checks)
     n_laws = 1500 if tier == "quick" else 20000
     hit0 = search(seed ^ 0x1A, n_laws)
